@@ -49,6 +49,9 @@ type Defects struct {
 	NullObjZero      bool // F28: null for required nullable object runs validators on zero struct
 	MaxZeroIgnored   bool // maxLength/maxItems/minimum-style zero sentinel (not representable: harness never states 0)
 	AddPropObjLax    bool // additionalProperties with object/array schema: values are not validated
+	NamedFormat      bool // definition/root of a format string is a named struct type without methods
+	NamedArrayNoLim  bool // a definition/root of type array is a named slice type without any validator
+	EnumNullZero     bool // null for a defaulted enum-typed property runs the enum check on the zero value
 }
 
 type evalCtx struct {
@@ -63,6 +66,9 @@ type ctxPos struct {
 	inlineItem bool       // this schema is written inline as an array's items
 	outerArr   *sg.Schema // outermost enclosing inline array (nested arrays)
 	addProp    bool       // value of an additional property
+	nonPtr     bool       // the Go position is not a pointer (required property without default, array item)
+	viaRef     bool       // schema is a declared type of its own (reached through $ref, or the root)
+	noArrLim   bool       // inside a named array type (defect model NamedArrayNoLim)
 }
 
 // Eval evaluates doc against s.
@@ -71,7 +77,7 @@ func Eval(s *sg.Schema, doc any, d *Defects) Result {
 		d = &Defects{}
 	}
 	c := &evalCtx{d: d, reCache: map[string]*regexp.Regexp{}}
-	c.eval(s, doc, "", ctxPos{})
+	c.eval(s, doc, "", ctxPos{viaRef: true})
 	r := Result{Faults: c.faults, DontCares: c.dc}
 	switch {
 	case len(c.dc) > 0:
@@ -132,7 +138,7 @@ func (c *evalCtx) eval(s *sg.Schema, v any, path string, pos ctxPos) {
 			return
 		}
 		// a referenced definition is never an "inline item"
-		c.eval(s.Target, v, path, ctxPos{addProp: pos.addProp})
+		c.eval(s.Target, v, path, ctxPos{addProp: pos.addProp, nonPtr: pos.nonPtr, viaRef: true})
 		return
 	}
 	if s.Ext != nil {
@@ -151,6 +157,13 @@ func (c *evalCtx) eval(s *sg.Schema, v any, path string, pos ctxPos) {
 
 	// Type.
 	kind := jsonx.Kind(v)
+	if c.d.NamedFormat && pos.viaRef && isFormatString(s) {
+		// defect model: "type X netip.Addr" — a struct without methods
+		if kind != "object" && kind != "null" {
+			c.fault("type", path)
+		}
+		return
+	}
 	if len(s.Types) > 0 {
 		t, nullable, ok := s.NonNullType()
 		if !ok {
@@ -161,9 +174,15 @@ func (c *evalCtx) eval(s *sg.Schema, v any, path string, pos ctxPos) {
 			if !nullable {
 				c.dontcare("null-at-non-nullable", path)
 			}
+			if nullable && c.d.NullObjZero && pos.nonPtr && t == "object" && len(s.Props) > 0 {
+				c.zeroStructRules(s, path)
+			}
 			return // null: nothing else is checked
 		}
 		if !typeMatches(t, v) {
+			if t == "integer" && kind == "number" && pos.addProp && c.d.AddPropLax {
+				return // mapstructure truncates
+			}
 			if t == "integer" && kind == "number" {
 				n := v.(jsonx.Num)
 				if n.IsIntegral() && !n.PlainInt() {
@@ -217,6 +236,80 @@ func (c *evalCtx) eval(s *sg.Schema, v any, path string, pos ctxPos) {
 		c.evalArray(s, v.([]any), path, pos)
 	case "object":
 		c.evalObject(s, v.(jsonx.Obj), path, pos)
+	}
+}
+
+// enumHasZero reports whether the zero value of the enum's Go type is a member (defect model EnumNullZero).
+func enumHasZero(s *sg.Schema) bool {
+	kind := ""
+	if len(s.Types) == 1 {
+		kind = jsonKind(s.Types[0])
+	} else {
+		for _, e := range s.Enum {
+			k := jsonx.Kind(e)
+			if kind == "" {
+				kind = k
+			} else if kind != k {
+				kind = "mixed"
+			}
+		}
+	}
+	var zero any
+	switch kind {
+	case "string":
+		zero = ""
+	case "number":
+		zero = jsonx.Num("0")
+	case "boolean":
+		zero = false
+	default:
+		zero = nil
+	}
+	for _, e := range s.Enum {
+		if jsonx.Equal(e, zero) {
+			return true
+		}
+	}
+	return false
+}
+
+func jsonKind(t string) string {
+	if t == "integer" {
+		return "number"
+	}
+	return t
+}
+
+func isFormatString(s *sg.Schema) bool {
+	if t, _, ok := s.NonNullType(); !ok || t != "string" || s.HasEnum {
+		return false
+	}
+	switch s.Format {
+	case "date", "time", "date-time", "ipv4", "ipv6":
+		return true
+	}
+	return false
+}
+
+// zeroStructRules models F28: UnmarshalJSON("null") on a non-pointer struct runs the value validators
+// of its non-pointer primitive fields on their zero values.
+func (c *evalCtx) zeroStructRules(s *sg.Schema, path string) {
+	for _, p := range s.Props {
+		if !s.IsRequired(p.Name) || p.S.HasDefault || p.S.Ref != "" || p.S.HasEnum {
+			continue
+		}
+		t, nullable, ok := p.S.NonNullType()
+		if !ok || nullable {
+			continue
+		}
+		switch t {
+		case "string":
+			if p.S.Format == "" {
+				c.evalString(p.S, "", path+"/"+p.Name)
+			}
+		case "integer", "number":
+			c.evalNumber(p.S, "0", path+"/"+p.Name)
+		}
 	}
 }
 
@@ -407,14 +500,17 @@ func (c *evalCtx) evalString(s *sg.Schema, str string, path string) {
 
 func (c *evalCtx) evalArray(s *sg.Schema, a []any, path string, pos ctxPos) {
 	lim := s
-	if c.d.OuterArrayLimits && pos.outerArr != nil {
+	if t, _, ok := s.NonNullType(); c.d.OuterArrayLimits && pos.outerArr != nil && ok && t == "array" {
 		lim = pos.outerArr
 	}
-	if lim.MinItems != 0 && len(a) < lim.MinItems {
-		c.fault("minItems", path)
-	}
-	if lim.MaxItems != 0 && len(a) > lim.MaxItems {
-		c.fault("maxItems", path)
+	noLim := pos.noArrLim || (c.d.NamedArrayNoLim && pos.viaRef)
+	if !noLim {
+		if lim.MinItems != 0 && len(a) < lim.MinItems {
+			c.fault("minItems", path)
+		}
+		if lim.MaxItems != 0 && len(a) > lim.MaxItems {
+			c.fault("maxItems", path)
+		}
 	}
 	if s.Items == nil {
 		return
@@ -424,7 +520,72 @@ func (c *evalCtx) evalArray(s *sg.Schema, a []any, path string, pos ctxPos) {
 		outer = s
 	}
 	for i, e := range a {
-		c.eval(s.Items, e, fmt.Sprintf("%s/%d", path, i), ctxPos{inlineItem: s.Items.Ref == "", outerArr: outer})
+		ip := fmt.Sprintf("%s/%d", path, i)
+		if noLim && s.Items.Ref == "" {
+			c.anonItem(s.Items, e, ip, ctxPos{inlineItem: true, outerArr: outer, nonPtr: true, noArrLim: true})
+			continue
+		}
+		c.eval(s.Items, e, ip, ctxPos{inlineItem: s.Items.Ref == "", outerArr: outer, nonPtr: true})
+	}
+}
+
+// anonItem models an inline item schema inside a named array type: the element type is an anonymous
+// Go type without unmarshaler, so only Go typing and the rules of named field types apply.
+func (c *evalCtx) anonItem(it *sg.Schema, e any, path string, pos ctxPos) {
+	if it.HasEnum || len(it.AnyOf) > 0 {
+		c.eval(it, e, path, pos)
+		return
+	}
+	if len(it.AllOf) > 0 {
+		// merged anonymous struct: Go typing of the union of the branches' properties only
+		if e == nil {
+			return
+		}
+		o, isObj := e.(jsonx.Obj)
+		if !isObj {
+			c.fault("type", path)
+			return
+		}
+		view := mergedView(it)
+		for _, kv := range o {
+			if p := view.Prop(kv.K); p != nil {
+				c.goDecode(p, kv.V, path+"/"+kv.K)
+			}
+		}
+		return
+	}
+	t, _, ok := it.NonNullType()
+	if !ok {
+		c.eval(it, e, path, pos)
+		return
+	}
+	switch {
+	case t == "object" && len(it.Props) > 0:
+		if e == nil {
+			return
+		}
+		o, isObj := e.(jsonx.Obj)
+		if !isObj {
+			c.fault("type", path)
+			return
+		}
+		for _, kv := range o {
+			if p := it.Prop(kv.K); p != nil {
+				c.goDecode(p, kv.V, path+"/"+kv.K)
+			}
+		}
+	case t == "array":
+		if e == nil {
+			return
+		}
+		a, isArr := e.([]any)
+		if !isArr {
+			c.fault("type", path)
+			return
+		}
+		c.evalArray(it, a, path, pos)
+	default:
+		c.goDecode(it, e, path)
 	}
 }
 
@@ -457,9 +618,15 @@ func (c *evalCtx) evalObject(s *sg.Schema, o jsonx.Obj, path string, pos ctxPos)
 	for _, kv := range o {
 		if p := s.Prop(kv.K); p != nil {
 			if kv.V == nil && p.HasDefault {
-				continue // null with default: default applies (C09)
+				// null with default: default applies (C09)
+				if rp := p.Resolve(); c.d.EnumNullZero && rp != nil && rp.HasEnum {
+					if !enumHasZero(rp) {
+						c.fault("enum", path+"/"+kv.K)
+					}
+				}
+				continue
 			}
-			c.eval(p, kv.V, path+"/"+kv.K, ctxPos{})
+			c.eval(p, kv.V, path+"/"+kv.K, ctxPos{nonPtr: s.IsRequired(kv.K) && !p.HasDefault})
 			continue
 		}
 		// undeclared key
@@ -505,5 +672,61 @@ func (c *evalCtx) evalAnyOf(s *sg.Schema, v any, path string) {
 	}
 	if !ok {
 		c.fault("anyOf", path)
+		return
+	}
+	if c.d.AnyOfMerged {
+		if o, isObj := v.(jsonx.Obj); isObj {
+			merged := map[string]*sg.Schema{}
+			for _, b := range s.AnyOf {
+				if rb := b.Resolve(); rb != nil {
+					for _, p := range rb.Props {
+						if _, dup := merged[p.Name]; !dup {
+							merged[p.Name] = p.S
+						}
+					}
+				}
+			}
+			for _, kv := range o {
+				if p, has := merged[kv.K]; has {
+					c.goDecode(p, kv.V, path+"/"+kv.K)
+				}
+			}
+		}
+	}
+}
+
+// goDecode models decoding into a field of the merged anyOf struct: Go type rules always apply,
+// value rules only where the field's type has an unmarshaler of its own (named types).
+func (c *evalCtx) goDecode(p *sg.Schema, v any, path string) {
+	rp := p.Resolve()
+	if rp == nil {
+		return
+	}
+	if p.Ref != "" || rp.HasEnum || len(rp.Props) > 0 {
+		c.eval(p, v, path, ctxPos{})
+		return
+	}
+	if v == nil {
+		return
+	}
+	t, _, ok := rp.NonNullType()
+	if !ok {
+		return
+	}
+	if t == "array" {
+		a, isArr := v.([]any)
+		if !isArr {
+			c.fault("type", path)
+			return
+		}
+		if rp.Items != nil {
+			for i, e := range a {
+				c.goDecode(rp.Items, e, fmt.Sprintf("%s/%d", path, i))
+			}
+		}
+		return
+	}
+	if !typeMatches(t, v) {
+		c.fault("type", path)
 	}
 }
